@@ -603,10 +603,7 @@ func storeSideC10(p *core.Program, r *core.Report) {
 	okName := false
 	for _, c := range core.CallsTo(bpp, "crypto/sha256.Sum256") {
 		okName = len(bpp.Params) >= 3 && core.DependsOn(core.Arg(c, 0), func(v ssa.Value) bool { return v == ssa.Value(bpp.Params[1]) }) &&
-			core.DependsOn(core.Arg(c, 0), func(v ssa.Value) bool {
-				cc, ok := v.(*ssa.Call)
-				return ok && core.NameIs(core.CalleeName(cc), bp7+".BundleID.String")
-			})
+			partNameDependsOnID(bpp, core.Arg(c, 0))
 	}
 	r.Check(okName, "store/"+fname(bpp)+"/distinct-files", "the part file name is derived from the fragment's bundle ID and its payload length, so that two fragments starting at the same offset do not overwrite each other", p.Pos(bpp.Pos()), "", "file name does not depend on the payload length")
 
